@@ -314,7 +314,7 @@ func (e *Engine) globalNonNil() map[string]bool {
 							nonNil := false
 							if fc := e.contractOf(cf); fc != nil {
 								for _, en := range fc.Ensures {
-									if strings.TrimSpace(en.Text) == "r0 != nil" {
+									if t := strings.TrimSpace(en.Text); t == "r0 != nil" || strings.HasPrefix(t, "r0 != nil &&") {
 										nonNil = true
 									}
 								}
